@@ -348,6 +348,24 @@ def check_C07(hs: History, conns, ex: Expect, ob: Obs):
             out.append(("closed:fields", f"CLIENT_CLOSED for conn {d['cid']} reports mod_id {g[4]}, expected {d['mod_id']}"))
         if (g[5] != int(d["logger"]) or g[6] != int(d["unique"])) and not d["why"].startswith("refuse-name"):
             out.append(("closed:fields", f"CLIENT_CLOSED for conn {d['cid']} reports logger/unique {g[5]}/{g[6]}, expected {int(d['logger'])}/{int(d['unique'])}"))
+    # "stops treating it as a recipient at once": once the departure of a module has been published, the only failure
+    # notice that may still name it is the one for the message whose delivery discovered the departure (it is sent
+    # right after the removal).  A second one means the manager tried to deliver to it again.  The module id may be
+    # taken by a new connection later (its CLIENT_INFO appears on the monitor): counting stops there.
+    gone_mod: Dict[int, list] = {}      # mod_id -> [uid, notices seen since its CLIENT_CLOSED]
+    for f in mon:
+        if not (is_mgr(f) and f["p"]["dec"]):
+            continue
+        t, dec = f["h"]["type"], f["p"]["dec"]
+        if t == MT["CLIENT_CLOSED"]:
+            gone_mod[dec[4]] = [dec[2], 0]
+        elif t == MT["CLIENT_INFO"] and dec[4] in gone_mod and dec[2] != gone_mod[dec[4]][0]:
+            del gone_mod[dec[4]]
+        elif t == MT["FAILED_MESSAGE"] and dec[1] in gone_mod:
+            gone_mod[dec[1]][1] += 1
+            if gone_mod[dec[1]][1] == 2:
+                out.append(("closed:still-recipient", f"module id {dec[1]} (conn {gone_mod[dec[1]][0]}) is named by a second "
+                            f"FAILED_MESSAGE (for a message of type {dec[2]['type']}) after its CLIENT_CLOSED was published"))
     for uid, l in by_uid.items():
         if uid in conns and conns[uid].will_fail is None:
             if len(l) > 1:
